@@ -18,13 +18,13 @@ RULE = (
     "bound kind {both, lower only, upper only, none} x value position {below, at lower, inside, at upper, above}; "
     "linear row 0 kind {eq, lower, upper, two-sided, unbounded} x position (15 settings, row 1 cycled); non-linear "
     "constraint 0 kind x position (15 settings, constraint 1 cycled); transforms {none, variable+constraint scalers}; "
-    "tracker tolerance {1e-10, None, 0.5}. Oracle: IEEE formulas value-lower, value-upper, max(lower-value, value-upper, 0); "
+    "tracker tolerance {1e-10, None, 0.0, 0.5}. Oracle: IEEE formulas value-lower, value-upper, max(lower-value, value-upper, 0); "
     "bound information present whenever any variable bound is finite; tracker holds the result iff all violations <= tol. "
     "Every case is non-trivial."
 )
 ASSUMPTIONS = [
     "dyadic values; 1e-9 relative tolerance on differences (scalers introduce rounding)",
-    "with transforms the tracker tolerance is only judged for tolerances (None, 1e-10) where user- and optimizer-domain verdicts coincide",
+    "with transforms the tracker tolerance is only judged for tolerances (None, 0.0, 1e-10) where user- and optimizer-domain verdicts coincide",
 ]
 BOUNDS = {"quick": "144 variable settings x 15 linear x 15 non-linear x transforms on/off", "thorough": "same x second transform set x 3 tolerances"}
 
@@ -173,9 +173,9 @@ def run_shard(shard: dict[str, Any]) -> core.ShardResult:
         for lin in range(len(CON_SETTINGS)):
             for nl in range(len(CON_SETTINGS)):
                 for transforms in ((0, 1, 2) if thorough else (0, 1)):
-                    tols = [1e-10, None] + ([0.5] if transforms == 0 and (thorough or (lin + nl) % 3 == 0) else [])
+                    tols = [1e-10, None, 0.0] + ([0.5] if transforms == 0 and (thorough or (lin + nl) % 3 == 0) else [])
                     if not thorough:
-                        tols = [tols[(lin + nl + v1) % 2]] + tols[2:]
+                        tols = [tols[(lin + nl + v1) % 3]] + tols[3:]
                     for tol in tols:
                         case = {"v0": shard["v0"], "v1": v1, "lin": lin, "nl": nl, "transforms": transforms, "tol": tol}
                         j = judge(case)
